@@ -135,7 +135,7 @@ def random_loop_case(rng, max_states=4, token=True, vcs=None):
     symbol), optionally self loops and chords: the shapes of the two-state closed form of to_regex"""
     n = rng.randint(2, max_states)
     k = rng.randint(1, 3)
-    trans = [[i, rng.randrange(k), i + 1] for i in range(n - 1)]
+    trans = [[i, EPSID if rng.random() < 0.3 else rng.randrange(k), i + 1] for i in range(n - 1)]
     back = EPSID if rng.random() < 0.6 else rng.randrange(k)
     trans.append([n - 1, back, 0])
     if rng.random() < 0.3:
